@@ -97,13 +97,14 @@ theorem open_then_read_rawZ (l : Layout) (hF : l.Fits) (hR : l.ReadableZ) (hS : 
 
 /-- **`newAppend_on_layoutZ`** — `C13.newAppend_on_layout` under `ReadableZ`: `new_append` re-hydrates the
 same views (minus their ZIP64 extra records, D20) from a foreign archive with redundant ZIP64 records. -/
-theorem newAppend_on_layoutZ (l : Layout) (hF : l.Fits) (hR : l.ReadableZ) (hS : Spec.Zip.NoFalseSig l)
+theorem newAppend_on_layoutZ (l : Layout) (hF : l.Fits) (hN : ∀ e ∈ l.entries, AppendNameFits e)
+    (hR : l.ReadableZ) (hS : Spec.Zip.NoFalseSig l)
     (ht : l.trailing = [] ∨ l.needs64 = false) :
     ∃ d', newAppend.runPure (Dev.ofBytes (build l)) =
         (.ok { WState.init with files := (viewOf l).map appendRecord, comment := l.comment,
                                 writingRaw := true }, d') ∧
       d'.buf = build l ∧ d'.pos = l.cdStart :=
-  Model.newAppend_on_layoutZ l hF hR hS ht
+  Model.newAppend_on_layoutZ l hF hN hR hS ht
 
 /-! ## Non-vacuity -/
 
